@@ -5,8 +5,9 @@ as a predicate on the element view — no loops over siblings with flags, no `no
 two-digits-at-a-time arithmetic.
 
 `documented v e = none` means the documentation makes no promise (operands that cannot be ordered,
-a validator applied to an element kind it is not documented for, the network validators whose
-shape is delegated to `urlparse`/`idna`).
+a validator applied to an element kind it is not documented for, the URL validators whose
+shape is delegated to `urlparse`).  For `IsEmail` the idna conversion is an opaque input of the
+view, but *where* each documented condition is applied (on the converted text) is specified.
 -/
 import Flatland.C15
 namespace Flatland.C15.Spec
@@ -76,6 +77,27 @@ def given (ks : List Val) (a : Str) : Bool := ks.any (fun k => same (.str a) k)
 /-- the labels that go into the MapEqual message are texts -/
 def textLabels (l : List FieldView) : Bool :=
   l.all (fun f => match f.label with | .str _ => true | _ => false)
+
+/-- IsEmail, from its docstring.  Given **local-part@domain**: exactly one `@`; the local part
+    has at least one non-whitespace character (and matches `local_part_pattern` when one is
+    set); the domain "will be converted to IDN representation *before* length assertions are
+    applied": the conversion must succeed and every remaining condition is on the converted
+    text `idna` — at most 253 characters, the domain pattern, each dot-separated component 63
+    characters or less, and at least two components when `non_local`.
+    (`idna` and `localOk` are the results of the opaque idna codec / regular expression.) -/
+def emailDocumented (nonLocal : Bool) (addr : Str) (localOk : Option Bool) (idna : Option Str) :
+    Bool :=
+  addr.count '@' == 1 &&
+  (match splitOnChar '@' addr with
+   | [l, _] => l.any (fun c => !isSpaceChar c)
+   | _ => false) &&
+  localOk != some false &&
+  (match idna with
+   | none => false
+   | some d =>
+     decide (d.length ≤ 253) && domainMatches d &&
+     (!nonLocal || decide (2 ≤ (splitOnChar '.' d).length)) &&
+     (splitOnChar '.' d).all (fun l => decide (l.length ≤ 63)))
 
 def documented (v : V) (e : View) : Option Bool :=
   match v with
@@ -150,7 +172,11 @@ def documented (v : V) (e : View) : Option Bool :=
     | v => match numOf v with
       | some n => some (decide (0 ≤ n) && luhnSpec (digits n.toNat))
       | none => none
-  | .isEmail _ => none
+  | .isEmail nonLocal =>
+    match e.value with
+    | .none => some false
+    | .str addr => some (emailDocumented nonLocal addr e.localOk e.idna)
+    | _ => none
   | .urlValidator _ _ => none
   | .httpURL _ _ => none
   | .urlCanonicalizer _ => none
